@@ -507,6 +507,9 @@ func (c *fctx) loopEnv(fr *frame, li *loopInfo, st *state, phiOverride map[ssa.V
 			e.vars["k"] = sval{t: fmt.Sprintf("(+ %s 1)", v.t), sort: "Int", gt: types.Typ[types.Int]}
 		}
 	}
+	for k, v := range li.extra {
+		e.vars[k] = v
+	}
 	// all names are resolved lazily through lookupVar
 	names := map[string]bool{}
 	var collect func(x spec.Expr)
@@ -727,6 +730,10 @@ func (p *Prog) VerifyFunc(fn *ssa.Function) *FuncVC {
 			if _, taken := re.vars[resultAlias(i, rs.Len())]; !taken {
 				re.vars[resultAlias(i, rs.Len())] = re.vars[rnames[i]]
 			}
+		}
+		if c.rfErrsFinal != "" {
+			// number of yields of the function's range-over-func loop that carried a non-nil error
+			re.vars["yielderrs"] = sval{t: c.rfErrsFinal, sort: "Int", gt: types.Typ[types.Int]}
 		}
 		for i, en := range ct.Ensures {
 			g := re.tr(en.E)
